@@ -109,6 +109,7 @@ class FD:
         self.resolver = resolver        # dotted name -> constant (raises KeyError)
         self.attr_hook = attr_hook
         self.binop_hook = None
+        self.compare_hook = None
         self.steps = 0
         self.max_steps = max_steps
 
@@ -208,6 +209,40 @@ class FD:
                 out.append(self.eval(e.elt, inner))
         return out
 
+    def e_DictComp(self, e, env):
+        if len(e.generators) != 1:
+            raise Inconclusive('fdeval: nested comprehension')
+        g = e.generators[0]
+        it = self.eval(g.iter, env)
+        if it is UNKNOWN or isinstance(it, (Opaque, Obj)) or it is ERR:
+            raise Inconclusive('fdeval: comprehension over a non-concrete iterable')
+        out = {}
+        inner = dict(env)
+        for item in list(it):
+            self.assign(g.target, item, inner)
+            if all(truth(self.eval(c, inner)) for c in g.ifs):
+                out[self.eval(e.key, inner)] = self.eval(e.value, inner)
+        return out
+
+    def e_SetComp(self, e, env):
+        return set(self.e_ListComp(e, env))
+
+    def e_Set(self, e, env):
+        return {self.eval(x, env) for x in e.elts}
+
+    def e_Lambda(self, e, env):
+        params = [a.arg for a in e.args.args]
+        vararg = e.args.vararg.arg if e.args.vararg else None
+
+        def f(*args):
+            inner = dict(env)
+            for p, a in zip(params, args):
+                inner[p] = a
+            if vararg:
+                inner[vararg] = tuple(args[len(params):])
+            return self.eval(e.body, inner)
+        return f
+
     def e_GeneratorExp(self, e, env):
         return self.e_ListComp(e, env)
 
@@ -218,7 +253,16 @@ class FD:
         return [self.eval(x, env) for x in e.elts]
 
     def e_Dict(self, e, env):
-        return {self.eval(k, env): self.eval(v, env) for k, v in zip(e.keys, e.values)}
+        out = {}
+        for k, v in zip(e.keys, e.values):
+            if k is None:
+                inner = self.eval(v, env)
+                if not isinstance(inner, dict):
+                    raise Inconclusive('fdeval: ** of a non-dict')
+                out.update(inner)
+            else:
+                out[self.eval(k, env)] = self.eval(v, env)
+        return out
 
     def e_UnaryOp(self, e, env):
         v = self.eval(e.operand, env)
@@ -266,6 +310,8 @@ class FD:
         for op, rnode in zip(e.ops, e.comparators):
             right = self.eval(rnode, env)
             r = self.compare(op, left, right)
+            if len(e.ops) == 1 and self.compare_hook is not None and not isinstance(r, bool) and r is not UNKNOWN:
+                return r    # symbolic comparison result supplied by the rule
             t = truth(r)
             if t is None:
                 result = UNKNOWN
@@ -275,6 +321,13 @@ class FD:
         return result
 
     def compare(self, op, left, right):
+        if self.compare_hook is not None and (isinstance(left, Obj) or isinstance(right, Obj)):
+            r = self.compare_hook(op, left, right)
+            if r is not NotImplemented:
+                return r
+        return self._compare(op, left, right)
+
+    def _compare(self, op, left, right):
         if isinstance(op, (ast.Is, ast.IsNot)):
             if left is UNKNOWN or right is UNKNOWN:
                 return UNKNOWN
@@ -430,6 +483,8 @@ class FD:
             kwargs = {k.arg: self.eval(k.value, env) for k in e.keywords}
             kwargs.update(star_kwargs)
             return self.call_function(self.functions[name], args, kwargs)
+        if name in _BUILTINS and '.' in name:
+            return _BUILTINS[name](*[self.eval(a, env) for a in e.args])
         if isinstance(e.func, ast.Name) and e.func.id in env and callable(env[e.func.id]):
             args = [self.eval(a, env) for a in e.args]
             return env[e.func.id](*args)
@@ -877,6 +932,10 @@ _BUILTINS = {
     'zip': _concrete_seq(lambda *x: list(zip(*x))),
     'min': _concrete_seq(min), 'max': _concrete_seq(max), 'sum': _concrete_seq(sum),
     'map': lambda f, x: [f(i) for i in x],
+    'dict.fromkeys': lambda keys, value=None: dict.fromkeys(keys, value),
+    'dict': lambda *a, **k: dict(*a, **k),
+    'frozenset': _concrete_seq(lambda *x: frozenset(*x)),
+    'set': _concrete_seq(lambda *x: set(*x)),
     'any': lambda x: any(truth(i) for i in x),
     'all': lambda x: all(truth(i) for i in x),
     'len': _b_len,
@@ -887,3 +946,47 @@ _BUILTINS = {
     'int': lambda x: UNKNOWN if x is UNKNOWN else int(x),
     'float': lambda x: UNKNOWN if x is UNKNOWN else float(x),
 }
+
+
+def module_resolver(sym, mod, fd=None, extra=None, symbolic=None):
+    """Resolver for names used by a fragment: constants through the symbol table, otherwise the module-level binding
+    evaluated by the interpreter itself (dict comprehensions over other tables, tuples of constants, ...).
+    `symbolic(name)` may return a stand-in for classes/functions (e.g. the name itself)."""
+    cache = {}
+    extra = extra or {}
+
+    def resolve(name):
+        if name in extra:
+            return extra[name]
+        if name in cache:
+            return cache[name]
+        import ast as _ast
+        try:
+            node = _ast.parse(name, mode='eval').body
+        except SyntaxError:
+            raise KeyError(name)
+        try:
+            v = sym.const(mod, node)
+            cache[name] = v
+            return v
+        except KeyError:
+            pass
+        if '.' not in name:
+            b = sym.lookup(mod.name, name)
+            if b is not None and b.kind == 'assign' and b.node is not None:
+                inner = FD(resolver=module_resolver(sym, b.module, extra=extra, symbolic=symbolic))
+                try:
+                    v = inner.eval(b.node, {})
+                    cache[name] = v
+                    return v
+                except Inconclusive:
+                    pass
+            if b is not None and b.kind == 'importfrom' and b.target in sym.repo.modules:
+                return module_resolver(sym, sym.repo.modules[b.target], extra=extra, symbolic=symbolic)(b.attr)
+        import builtins as _b
+        if symbolic is not None and not hasattr(_b, name.split('.')[0]):
+            v = symbolic(name)
+            if v is not None:
+                return v
+        raise KeyError(name)
+    return resolve
